@@ -86,6 +86,20 @@ _SHAPES = {
         "return f'def {fn_name}({fn_args}) -> float:\\n    return {pycode(expr, fully_qualified_modules=True, full_prec=False)}\\n    '"
         ".replace('math.factorial', 'scipy.special.factorial')"
     ),
+    "_positional_fn": (
+        "positions: dict[sympy.Basic, sympy.Basic] = {}\nfor i, arg in enumerate(args):\n"
+        "    positions.setdefault(sympy.Symbol(arg), sympy.Symbol(f'__arg{i}__'))\nreturn (expr.xreplace(positions), len(args))"
+    ),
+    "_register_fn": (
+        "positional = _positional_fn(expr, args)\nname = fn_name\ni = 1\n"
+        "while name in functions and _positional_fn(*functions[name]) != positional:\n    name = f'{fn_name}_{i}'\n    i += 1\n"
+        "functions[name] = (expr, args)\nreturn name"
+    ),
+    "_parameter_names": (
+        "names: list[str] = []\nfor arg in args:\n    name = arg\n    i = 1\n"
+        "    while name in names or (name != arg and name in args):\n        name = f'{arg}_{i}'\n        i += 1\n"
+        "    names.append(name)\nreturn names"
+    ),
     "_codegen_value": (
         "if isinstance((init := X.value), SymbolicFn):\n    fn_name = <KEY>\n    functions[fn_name] = (init.expr, init.args)\n    return <IA-TEXT>"
     ),
@@ -134,6 +148,7 @@ def extract_facts() -> dict[str, Any]:  # noqa: C901, PLR0912, PLR0915
         "ia_order": "IaUnknown",
         "module_name": "ModuleNameUnknown",
         "file_prefix": None,
+        "register": "RegUnknown",
         "shapes": {},
     }
     shapes: dict[str, bool] = facts["shapes"]
@@ -187,7 +202,11 @@ def extract_facts() -> dict[str, Any]:  # noqa: C901, PLR0912, PLR0915
     shapes["sympy_to_python_fn"] = f is not None and _norm(_body(f)) == _SHAPES["sympy_to_python_fn"]
 
     # ---- codegen_mxlpy.py -------------------------------------------------------------
+    # two recognised ways of storing a function body:
+    #   RegOverwrite  fn_name = <key> ; functions[fn_name] = (expr, args)            (snapshot)
+    #   RegFresh      fn_name = _register_fn(functions, <key>, expr, args)           (fix a07e507)
     prefixes = []
+    kinds: list[str] = []
     for name, attr in (("_codegen_variable", "var"), ("_codegen_parameter", "par")):
         f = _fn(cg, name)
         ok = False
@@ -195,19 +214,41 @@ def extract_facts() -> dict[str, Any]:  # noqa: C901, PLR0912, PLR0915
             b = _body(f)
             if b and isinstance(b[0], ast.If) and ast.unparse(b[0].test) == f"isinstance((init := {attr}.value), SymbolicFn)":
                 ib = b[0].body
+                ret_ok = (
+                    bool(ib)
+                    and isinstance(ib[-1], ast.Return)
+                    and "InitialAssignment(fn={fn_name}, args={init.args!r})" in ast.unparse(ib[-1])
+                    and "{k!r}" in ast.unparse(ib[-1])
+                )
                 if (
-                    len(ib) == 3
+                    ret_ok
+                    and len(ib) == 3
                     and isinstance(ib[0], ast.Assign)
                     and ast.unparse(ib[0].targets[0]) == "fn_name"
                     and (j := _joined(ib[0].value)) is not None
                     and len(j) == 2
                     and j[1] == "{init.fn_name}"
                     and ast.unparse(ib[1]) == "functions[fn_name] = (init.expr, init.args)"
-                    and isinstance(ib[2], ast.Return)
-                    and "InitialAssignment(fn={fn_name}, args={init.args!r})" in ast.unparse(ib[2])
-                    and "{k!r}" in ast.unparse(ib[2])
                 ):
                     prefixes.append(j[0])
+                    kinds.append("RegOverwrite")
+                    ok = True
+                elif (
+                    ret_ok
+                    and len(ib) == 2
+                    and isinstance(ib[0], ast.Assign)
+                    and ast.unparse(ib[0].targets[0]) == "fn_name"
+                    and isinstance(ib[0].value, ast.Call)
+                    and ast.unparse(ib[0].value.func) == "_register_fn"
+                    and len(ib[0].value.args) == 4
+                    and not ib[0].value.keywords
+                    and [ast.unparse(x) for x in (ib[0].value.args[0], ib[0].value.args[2], ib[0].value.args[3])] == ["functions", "init.expr", "init.args"]
+                    and (j := _joined(ib[0].value.args[1])) is not None
+                    and len(j) == 2
+                    and j[1] == "{init.fn_name}"
+                ):
+                    prefixes.append(j[0])
+                    kinds.append("RegFresh")
                     ok = True
         shapes[name] = ok
     if len(prefixes) == 2 and prefixes[0] == prefixes[1] and _ascii_ok(prefixes[0]):
@@ -225,6 +266,15 @@ def extract_facts() -> dict[str, Any]:  # noqa: C901, PLR0912, PLR0915
             "model.derived.items()": "SecDer",
             "model.reactions.items()": "SecRxn",
         }
+
+        def stoich_key(j: list[str] | None) -> None:
+            if j is None or len(j) != 3 or not _ascii_ok(j[1]):
+                return
+            if j[0] == "{k}" and j[2] == "{stoich.fn_name}":
+                facts["stoich_key"], facts["stoich_infix"] = "RxnInfixFn", j[1]
+            elif j[0] == "{stoich.fn_name}" and j[2] == "{k}":
+                facts["stoich_key"], facts["stoich_infix"] = "FnInfixRxn", j[1]
+
         for s in _body(f):
             if isinstance(s, ast.For) and ast.unparse(s.iter) in tagmap:
                 tag = tagmap[ast.unparse(s.iter)]
@@ -233,10 +283,13 @@ def extract_facts() -> dict[str, Any]:  # noqa: C901, PLR0912, PLR0915
                     if isinstance(n, ast.Assign) and ast.unparse(n.targets[0]).startswith("functions["):
                         writes.append(f"{tag}: {ast.unparse(n)}")
                     if isinstance(n, ast.Assign) and ast.unparse(n.targets[0]) == "fn_name" and (j := _joined(n.value)) is not None:
-                        if len(j) == 3 and j[0] == "{k}" and j[2] == "{stoich.fn_name}" and _ascii_ok(j[1]):
-                            facts["stoich_key"], facts["stoich_infix"] = "RxnInfixFn", j[1]
-                        elif len(j) == 3 and j[0] == "{stoich.fn_name}" and j[2] == "{k}" and _ascii_ok(j[1]):
-                            facts["stoich_key"], facts["stoich_infix"] = "FnInfixRxn", j[1]
+                        stoich_key(j)
+                    if isinstance(n, ast.Call) and ast.unparse(n.func) == "_register_fn":
+                        if len(n.args) == 4 and isinstance(n.args[1], ast.JoinedStr):
+                            stoich_key(_joined(n.args[1]))
+                            writes.append(f"{tag}: _register_fn({ast.unparse(n.args[0])}, <stoich-key>, {ast.unparse(n.args[2])}, {ast.unparse(n.args[3])})")
+                        else:
+                            writes.append(f"{tag}: {ast.unparse(n)}")
                     if isinstance(n, ast.Call) and ast.unparse(n.func) in ("_codegen_variable", "_codegen_parameter"):
                         writes.append(f"{tag}: {ast.unparse(n)}")
             elif any(isinstance(n, ast.Subscript) and ast.unparse(n.value) == "functions" and isinstance(n.ctx, ast.Store) for n in ast.walk(s)):
@@ -244,7 +297,14 @@ def extract_facts() -> dict[str, Any]:  # noqa: C901, PLR0912, PLR0915
         if len(sections) == len(set(sections)) == 4:
             facts["sections"] = sections
         src = ast.unparse(f)
-        shapes["generate"] = (
+        common_ok = (
+            "functions: dict[str, tuple[sympy.Expr, list[str]]] = {}" in src
+            and "for var, stoich in rxn.stoichiometry.items()" in src
+            and "Derived(fn={fn_name}, args={stoich.args!r})" in src
+            and "args={fn.args}" in src
+            and "fn = rxn.fn" in src
+        )
+        old_ok = (
             writes
             == [
                 "SecVars: _codegen_variable(k, var, functions=functions)",
@@ -253,14 +313,32 @@ def extract_facts() -> dict[str, Any]:  # noqa: C901, PLR0912, PLR0915
                 "SecRxn: functions[fn.fn_name] = (fn.expr, fn.args)",
                 "SecRxn: functions[fn_name] = (stoich.expr, stoich.args)",
             ]
-            and "functions: dict[str, tuple[sympy.Expr, list[str]]] = {}" in src
             and "sympy_to_python_fn(fn_name=name, args=args, expr=expr) for name, (expr, args) in functions.items()" in src
-            and "for var, stoich in rxn.stoichiometry.items()" in src
-            and "Derived(fn={fn_name}, args={stoich.args!r})" in src
             and "fn={fn.fn_name}" in src
-            and "args={fn.args}" in src
-            and "fn = rxn.fn" in src
         )
+        new_ok = (
+            writes
+            == [
+                "SecVars: _codegen_variable(k, var, functions=functions)",
+                "SecPars: _codegen_parameter(k, par, functions=functions)",
+                "SecDer: _register_fn(functions, fn.fn_name, fn.expr, fn.args)",
+                "SecRxn: _register_fn(functions, fn.fn_name, fn.expr, fn.args)",
+                "SecRxn: _register_fn(functions, <stoich-key>, stoich.expr, stoich.args)",
+            ]
+            and "fn_name = _register_fn(functions, fn.fn_name, fn.expr, fn.args)" in src
+            and "rxn_fn_name = _register_fn(functions, fn.fn_name, fn.expr, fn.args)" in src
+            and "fn={fn_name}," in src
+            and "fn={rxn_fn_name}," in src
+            and "fn={fn.fn_name}" not in src
+            and "sympy_to_python_fn(fn_name=name, args=_parameter_names(args), expr=expr) for name, (expr, args) in functions.items()" in src
+            and all((g := _fn(cg, h)) is not None and _norm(_body(g)) == _SHAPES[h] for h in ("_register_fn", "_positional_fn", "_parameter_names"))
+        )
+        if common_ok and old_ok and kinds == ["RegOverwrite", "RegOverwrite"]:
+            facts["register"] = "RegOverwrite"
+            shapes["generate"] = True
+        elif common_ok and new_ok and kinds == ["RegFresh", "RegFresh"]:
+            facts["register"] = "RegFresh"
+            shapes["generate"] = True
     return facts
 
 
@@ -274,7 +352,7 @@ def gen() -> dict[str, Any]:
         "From Coq Require Import String List.\nFrom SbmlImp Require Import SbmlImport.\nImport ListNotations.\nOpen Scope string_scope.\n"
         "Definition gen_facts : facts :=\n"
         f"  mkFacts {cstr(f['init_prefix'] or '')} {cstr(f['stoich_infix'] or '')} {f['stoich_key']} "
-        f"{clist(secs) if secs else '[]'} {f['ia_order']} {f['module_name']} {cstr(f['file_prefix'] or '')} "
+        f"{clist(secs) if secs else '[]'} {f['ia_order']} {f['module_name']} {cstr(f['file_prefix'] or '')} {f['register']} "
         f"{cbool(all(f['shapes'].values()) and len(f['shapes']) == 10)}.\n"
     )
     common.write_if_changed(common.area_dir(AREA) / "GenSbmlFacts.v", text)
@@ -717,7 +795,8 @@ def check(run: Run) -> None:  # noqa: C901, PLR0912, PLR0915
         "random order, 0-2 function definitions (nested calls), 0-2 initial assignments (parameters, species), 1-3 reactions with "
         "fractional stoichiometries and net coefficients; kinetic laws polynomial / piecewise+abs / transcendental (exp, ln, sin, cos, "
         "sqrt, general division); a third of the documents use awkward ids (Python keywords, sympy names, leading underscores, "
-        "init_/_stoich_ look-alikes); each read is judged at the document's initial state and 2 random states; a case is non-trivial if "
+        "init_/_stoich_ look-alikes) and a separate stream renames a rule-defined parameter so that its function name clashes with a generated "
+        "init_<k> / <rxn>_stoich_<k> name; each read is judged at the document's initial state and 2 random states; a case is non-trivial if "
         "it has >= 1 reaction with a species of a compartment != 1 or a rule/function/initial assignment (all generated documents are); "
         "distinct by document content"
     )
@@ -790,10 +869,10 @@ def _check_body(run: Run, rng, sess: Session, thorough: bool, proofs_ok: bool) -
             # is built -- external limitation, outside the subset the property quantifies over
             bump(skipped, "refused loudly by sympy's printer: boolean piecewise inside a condition (external, no model built)")
             return
+        if coll:
+            bump(dist, "documents-with-clashing-function-keys (repaired region, judged like any other)")
         if probs:
-            if coll:
-                bump(known_hits, "C17-function-key-collision")
-            elif resv:
+            if resv:
                 bump(known_hits, "C17-reserved-name-capture")
             elif id_twins(doc):
                 bump(known_hits, "C17-keyword-escape-not-injective")
@@ -945,6 +1024,20 @@ def _check_body(run: Run, rng, sess: Session, thorough: bool, proofs_ok: bool) -
     run.coverage["correspondence_mismatches"] = mism
     run.coverage["findings_region_hits"] = known_hits
 
+    # ---- regression witnesses of REPAIRED defects (known_findings "fixed"): must pass now -----
+    for name in FIXED_WITNESSES:
+        doc = WITNESSES[name]()
+        states = pick_states(common.rng_for(0, "w"), doc, S.Meaning(doc), 2)
+        r = run_doc(sess, doc, "fixed_" + name, states)
+        run.count_case(("fixed-witness", name))
+        probs = judge(doc, r["res"], states)
+        if probs:
+            run.violation(
+                f"repaired defect C17-function-key-collision is back (witness {name}): {probs[0]}",
+                {"kind": "doc", "doc": doc, "stem": "fixed_" + name, "states": [{k: [v.numerator, v.denominator] for k, v in st.items()} for st in states],
+                 "problems": probs[:6], "generated_defs": r["res"]["keys"]},
+            )
+
     # ---- known findings: replay every witness --------------------------------------------
     for f in common.load_known_findings(PROP):
         w = f.get("witness", {})
@@ -986,6 +1079,8 @@ def replay_witness(sess: Session, w: dict) -> str | None:
         return "inspect.getsource(first model's v1) now returns the second document's function" if r["source_changed"] else None
     raise ValueError(f"unknown witness kind {kind}")
 
+
+FIXED_WITNESSES = ["stoich_collision", "init_collision_same_arity", "init_collision"]
 
 WITNESSES = {
     "stoich_collision": witness_stoich_collision,
